@@ -163,7 +163,8 @@ class Box(object):
             self.taint = True
         self.snap = post
         info = {'kind': r[0], 'code': r[1] if r[0] == 'err' else 0, 'cls': cls, 'tag': tag, 'box': self,
-                'cwd0': pre['cwd'], 'out': (r[2] if len(r) > 2 else b'')[:200], 'exc': r[1] if r[0] == 'internal' else None}
+                'cwd0': pre['cwd'], 'out': (r[2] if len(r) > 2 else b'')[:200], 'exc': r[1] if r[0] == 'internal' else None,
+                'pre': pre}
         if r[0] in ('internal', 'exit', 'cut'):
             s.ex('CLOSE')
         self.events.append((e, info))
@@ -285,6 +286,22 @@ def garbage_path(rng):
     return s
 
 
+def model_check(ctx, module, cfg, workers):
+    """exhaustive TLC run (like ctx.model_check but without -coverage: with ~10^5 successors per state the coverage
+    bookkeeping exhausts the heap); an invariant / action-property violation is a rejection"""
+    r = ctx.tlc(module, cfg, workers=workers, timeout=3000, tag='model check')
+    ctx.cov['states'] += r['distinct']
+    ctx.cov['transitions'] += r['generated']
+    if not r['ok']:
+        if r['error'] and 'violated' not in r['error']:
+            raise core.MachineryError('TLC run %s/%s failed: %s\n%s' % (module, cfg, r['error'], r['out'][-1500:]))
+        ctx.reject('TLC model check of %s (%s) failed: %s' % (module, cfg, r['error']),
+                   key={'clause': 'model_check', 'module': module}, data=r['out'][-4000:])
+    if r['generated'] < 1000:
+        raise core.MachineryError('vacuous model check %s/%s: %d transitions' % (module, cfg, r['generated']))
+    return r
+
+
 def run(ctx):
     ctx.cov['rule'] = ('events = BASIC file statements executed on a real Session in a sandbox; distinct by (statement form, path string(s), '
                        'current directories before); non-trivial = statements that issued at least one host operation or changed a cwd')
@@ -295,10 +312,10 @@ def run(ctx):
     #    evolving file system, and the as-coded configuration in which TLC must find the reproduced escape)
     dev = bool(os.environ.get('C27_DEV'))
     if not dev:
-        ctx.model_check('DosPath_MC', cfg=ctx.pick('DosPath_MC.cfg', 'DosPath_MC_big.cfg'), workers=ctx.pick(8, 16), require_actions=False)
+        model_check(ctx, 'DosPath_MC', ctx.pick('DosPath_MC.cfg', 'DosPath_MC_big.cfg'), ctx.pick(8, 16))
     if not quick and not dev:
         for cfg in ('DosPath_MC_all.cfg', 'DosPath_MC_2drv.cfg', 'DosPath_MC_nested.cfg', 'DosPath_MC_dyn.cfg'):
-            ctx.model_check('DosPath_MC', cfg=cfg, workers=16, require_actions=False)
+            model_check(ctx, 'DosPath_MC', cfg, 16)
     if not dev:
         r = ctx.tlc('DosPath_MC', 'DosPath_MC_ascoded.cfg', workers=1, tag='ascoded (must fail)')
         if r['ok'] or 'CwdInside' not in (r['error'] or ''):
@@ -318,6 +335,11 @@ def run(ctx):
     for ln in range(ctx.pick(4, 6)):
         strings = strings + [s + bytes([c]) for s in strings if len(s) == ln for c in alpha]
     strings = [s for s in strings if s]
+    # ... and with the forward slash (a separator for ntpath.split, Bad file number elsewhere) up to length 3
+    sl = [b'']
+    for ln in range(3):
+        sl = sl + [s + bytes([c]) for s in sl if len(s) == ln for c in alpha + b'/']
+    strings += [s for s in sl if b'/' in s]
     for cwd in ([], ['A'], ['A', 'B']):
         for s in strings:
             for stmt in ('CHDIR', rng.choice(['OPENI', 'FILES', 'KILL', 'RMDIR', 'OPENO', 'MKDIR'])):
@@ -328,6 +350,13 @@ def run(ctx):
                 if dirty or now != cwd or box.taint:
                     box.chdir_home({b'C': cwd})
                 box.do(stmt, s, tag='enum')
+    # (a2) every drive prefix x a few paths x the statement classes, cwd's of all drives compared with the model
+    for pre in (b'C:', b'c:', b'D:', b'd:', b'E:', b'e:', b'G:', b'@:'):
+        box.restore()
+        box.chdir_home()
+        for pth in (b'A', b'..', b'\\A', b'A\\..', b'N', b'', b'\\', b'.. ', b'F'):
+            for stmt in ('CHDIR', 'MKDIR', 'OPENO', 'FILES', 'OPENI', 'KILL', 'RMDIR', 'CHDIR'):
+                box.do(stmt, pre + pth, tag='drives')
     # (b) random histories inside the modelled fragment, file system and current directories evolving
     nhist = ctx.pick(40, 600)
     for h in range(nhist):
@@ -364,7 +393,9 @@ def run(ctx):
                 if not q or is_device(q):
                     continue
             box.do(stmt, p, q, tag='garbage')
-    ctx.cov['traces_validated_against_impl'] += 3 + 2 * 0 + ctx.pick(40, 600) + nhist
+    # behaviours validated: one per replayed transition (each starts in its own model state), one per enumeration start
+    # directory / drive prefix, one per random history
+    ctx.cov['traces_validated_against_impl'] += ctx.cov.get('model_transitions_replayed', 0) + 3 + 8 + ctx.pick(40, 600) + nhist
     # 4. validation by TLC, one run per chunk, chunks in parallel
     judge(ctx, boxes)
     for b in boxes:
@@ -375,7 +406,7 @@ def judge(ctx, boxes):
     chunks = []
     for b in boxes:
         evs = b.events
-        size = 4000
+        size = 1500
         for i in range(0, len(evs), size):
             part = evs[i:i + size]
             js = [dict(e) for e, _ in part]
@@ -385,7 +416,7 @@ def judge(ctx, boxes):
             chunks.append((b, part, js))
     results = [None] * len(chunks)
     errors = []
-    sem = threading.Semaphore(6)
+    sem = threading.Semaphore(8)
 
     def work(k):
         b, part, js = chunks[k]
@@ -418,7 +449,7 @@ def judge(ctx, boxes):
                            key={'clause': 'internal', 'stmt': e['stmt'], 'exc': str(info['exc']).split(':')[0],
                                 'devprefix': ('empty_or_run_of_drive_letters' if 'path2' in e and dev_prefix_class(bytes(e['path2'])) ==
                                               'empty_or_run_of_drive_letters' else dev_prefix_class(bytes(e['path'])))},
-                           data={'path': e['path'], 'path2': e.get('path2')})
+                           data=replay_data(e, info, []))
         for (i, clause) in results[k]:
             e, info = part[i - 1]
             hist = [(x['stmt'], bytes(x['path'])) for x, _ in part[max(0, i - 6):i - 1]]
@@ -427,7 +458,7 @@ def judge(ctx, boxes):
                 clause, e['stmt'], bytes(e['path']), (' AS %r' % bytes(e['path2'])) if 'path2' in e else '', info['kind'], info['code'],
                 [(chr(d), [bytes(n).decode('latin-1') for n in c]) for d, c in info['cwd0']], outside[:6]),
                 key={'clause': clause, 'stmt': e['stmt'], 'cls': info['cls']},
-                data={'event': e, 'history': hist, 'tag': info['tag']})
+                data=replay_data(e, info, hist))
     ctx.cov['host_operations_observed'] = nops
     ctx.cov['host_operations_outside_mounts_without_effect_or_rejected'] = nout
     ctx.cov['events_by_arm'] = bytag
@@ -436,8 +467,10 @@ def judge(ctx, boxes):
     for e, info in (allev[5], allev[len(allev) // 2], allev[-1]):
         ctx.sample({'stmt': e['stmt'], 'path': bytes(e['path']).decode('latin-1'), 'outcome': [info['kind'], info['code']],
                     'ops': [(o['op'], '/'.join(bytes(n).decode('latin-1') for n in o['path']), o['kind']) for o in e['ops']]})
-    if nops == 0:
-        raise core.MachineryError('vacuous: the monitor saw no host operation')
+    nchanged = sum(1 for e, _ in allev if 'post' in e)
+    ctx.cov['statements_that_changed_sandbox_or_cwd'] = nchanged
+    if nops == 0 or nchanged == 0:
+        raise core.MachineryError('vacuous: the monitor saw no host operation / no statement had an effect')
 
 
 def prev_state(evs, i):
@@ -449,3 +482,44 @@ def prev_state(evs, i):
         if 'pre' in e:
             return e['pre']
     raise core.MachineryError('no observed state before event %d' % i)
+
+
+def replay_data(e, info, hist):
+    b = info['box']
+    return {'event': {k: e[k] for k in ('stmt', 'path', 'path2') if k in e}, 'ops': e['ops'], 'history': hist, 'tag': info['tag'],
+            'cwd0': info['cwd0'], 'outcome': [info['kind'], info['code']],
+            'sandbox': {'dirs': info['pre']['dirs'], 'files': info['pre']['files'],
+                        'roots': {k.decode(): v for k, v in b.roots.items()}, 'cur': b.cur.decode()}}
+
+
+def replay(ctx, path):
+    """./check C27 --replay FILE: rebuild the sandbox and the current directories of every recorded rejection, execute the
+    statement again on the current tree and judge it again."""
+    logging.disable(logging.ERROR)
+    with open(path) as f:
+        doc = json.load(f)
+    boxes = []
+    for v in doc['violations']:
+        d = v.get('data')
+        if not isinstance(d, dict) or 'sandbox' not in d:
+            continue
+        sb = d['sandbox']
+        box = Box(ctx, [tuple(x) for x in sb['dirs']], [tuple(x) for x in sb['files']],
+                  {k.encode(): val for k, val in sb['roots'].items()}, cur=sb['cur'].encode())
+        for drv, rel in d['cwd0']:
+            letter = chr(drv)
+            box.sess.ex('CHDIR "%s:\\"' % letter)
+            for el in rel:
+                name = bytes(el).decode('latin-1')
+                box.sess.ex('CHDIR "%s:%s"' % (letter, name + ' ' if name in ('.', '..') else name))
+        box.need_pre = True
+        ev = d['event']
+        e, info = box.do(ev['stmt'], bytes(ev['path']), bytes(ev['path2']) if 'path2' in ev else None, tag='replayed')
+        print('replayed %s %r -> %s %s, host operations %s' % (ev['stmt'], bytes(ev['path']), info['kind'], info['code'],
+              [(o['op'], '/'.join(bytes(n).decode('latin-1') for n in o['path']), o['kind']) for o in e['ops']]))
+        boxes.append(box)
+    if not boxes:
+        raise core.MachineryError('nothing to replay in %s' % path)
+    judge(ctx, boxes)
+    for b in boxes:
+        b.close()
